@@ -33,7 +33,8 @@ from mc import core
 PID = "C19"
 STDS = ["c99", "c11", "gnu99", "gnu11"]
 FORMS = ["list", "string"]
-SPACED = "fake libc include"
+SPACED = os.path.join("J\u00fcrgen", "t\u00e9st fake libc include")  # blanks and non-ASCII characters
+SRCDIR = "s\u00f4urce dir \u4e2d"
 
 
 def fake_dir():
@@ -152,7 +153,10 @@ class Scratch:
         self.dir = tempfile.mkdtemp(prefix="verif-c19-")
         self.inc = fake_dir()
         self.spaced = os.path.join(self.dir, SPACED)
+        os.makedirs(os.path.dirname(self.spaced))
         os.symlink(self.inc, self.spaced)
+        self.src = os.path.join(self.dir, SRCDIR)  # the including files live under a non-ASCII path
+        os.makedirs(self.src)
         self.wrappers = {}
         for std in STDS:
             p = os.path.join(self.dir, f"cpp-{std}")
@@ -163,13 +167,13 @@ class Scratch:
         self.n = 0
 
     def cfile(self, name, hdrs, tail=""):
-        p = os.path.join(self.dir, name)
+        p = os.path.join(self.src, name)
         with open(p, "w") as f:
             f.write("".join(f"#include <{h}>\n" for h in hdrs) + tail)
         return p
 
     def info(self):
-        return {"dir": self.dir, "inc": self.inc, "spaced": self.spaced, "wrappers": self.wrappers}
+        return {"dir": self.dir, "inc": self.inc, "spaced": self.spaced, "wrappers": self.wrappers, "src": self.src}
 
     def remove(self):
         shutil.rmtree(self.dir, ignore_errors=True)
@@ -201,8 +205,12 @@ def run_cell(cfile, std, form, sc, reference=True):
     parse_file raised, to name the root cause; the oracle is 'returns a FileAST'."""
     from pycparser import parse_file
 
+    list_problem = None
     if form == "list":
-        cpp_path, cpp_args = "cpp", ["-I", sc["inc"], f"-std={std}"]
+        # ONE list object per dialect is passed to every parse_file call of this process
+        want_list = ["-I", sc["inc"], f"-std={std}"]
+        cpp_args = _SHARED_LISTS.setdefault((sc["inc"], std), list(want_list))
+        cpp_path = "cpp"
         manual = ["cpp", "-I", sc["inc"], f"-std={std}", cfile]
     else:
         cpp_path, cpp_args = sc["wrappers"][std], "-I" + sc["spaced"]
@@ -215,6 +223,22 @@ def run_cell(cfile, std, form, sc, reference=True):
         got = ("rec",)
     except Exception as e:  # noqa
         got = ("exc", type(e).__name__, anonymise(e, sc))
+    if form == "list":
+        _SHARED_USES[0] += 1
+        if cpp_args != want_list:
+            list_problem = ("cpp_args-list-modified-by-parse_file",
+                            f"-std={std}: the caller's list is now {anonymise(cpp_args, sc)[:200]} (use #{_SHARED_USES[0]} of this list object)")
+            cpp_args[:] = want_list  # go on with a repaired list
+    prob, info = _judge_cell(cfile, std, form, sc, reference, got, manual)
+    return (list_problem or prob), info
+
+
+_SHARED_LISTS = {}
+_SHARED_USES = [0]
+
+
+def _judge_cell(cfile, std, form, sc, reference, got, manual):
+    ast = got[1] if got[0] == "ok" else None
     if got[0] == "ok" and not reference:
         info = {"ast": got[1] if hasattr(got[1], "ext") else None}
         if info["ast"] is None:
@@ -254,7 +278,26 @@ def run_cell(cfile, std, form, sc, reference=True):
     if a != b:
         return (f"differs-from-manual:{form}:coordinates",
                 f"-std={std}: same structure, first coordinate difference {anonymise(core.first_diff(a, b), sc)}"[:400]), info
+    missing = sorted(f for f in coord_files(a) if os.path.isabs(f) and not os.path.exists(f))
+    if missing:
+        return (f"coordinates-name-a-file-that-does-not-exist:{form}", f"-std={std}: {anonymise(missing[:3], sc)}"), info
     return None, info
+
+
+def coord_files(cc):
+    """File names in the coordinates of a canon_coord value."""
+    out = set()
+    todo = [cc]
+    while todo:
+        x = todo.pop()
+        if isinstance(x, tuple):
+            if len(x) == 3 and isinstance(x[0], str) and x[0][:1].isupper() and isinstance(x[2], tuple):
+                if isinstance(x[1], tuple) and x[1] and isinstance(x[1][0], str):
+                    out.add(x[1][0])
+                todo.append(x[2])
+            else:
+                todo.extend(x)
+    return out
 
 
 def _grid_work(task):
@@ -387,7 +430,7 @@ def _rewrite_work(task):
     prev = None
     for idx, h in chain:
         with open(path, "w") as f:
-            f.write(f"#include <{h}>\nint marker_{idx};\n")
+            f.write(f"#include <{h}>\nint marker_{idx};\nchar *lit_{idx} = \"J\u00fcrgen \u00e9\u4e2d {idx}\";\n")
         prob, info = run_cell(path, std, form, sc)
         steps += 1
         case = {"rewrite_chain": [x for _, x in chain], "first_index": chain[0][0], "failing_header": h, "std": std, "form": form}
@@ -476,7 +519,7 @@ def _run(R, tier, hs, S):
         chain = [(i, hs[i]) for i in range(start, min(start + CH + 1, len(hs)))]
         for form in FORMS:
             for std in (STDS if tier == "thorough" else [STDS[k % len(STDS)]]):
-                chains.append((sc, os.path.join(S.dir, f"scratch_{len(chains)}.c"), chain, std, form))
+                chains.append((sc, os.path.join(S.src, f"scratch_{len(chains)}.c"), chain, std, form))
         k += 1
     rewrite_steps = 0
     pairs_covered = set()
@@ -491,7 +534,7 @@ def _run(R, tier, hs, S):
     sweep_tasks = []
     for std in STDS:
         for form in FORMS:
-            sweep_tasks.append((sc, hs, all_fwd, os.path.join(S.dir, f"sweep_{std}_{form}.c"), std, form, names, macros[std]))
+            sweep_tasks.append((sc, hs, all_fwd, os.path.join(S.src, f"sweep_{std}_{form}.c"), std, form, names, macros[std]))
     used_names = []
     sweeps_ok = 0
     tsets = {}
@@ -588,10 +631,10 @@ def replay(rep):
             names = [(n, k) for n, k in names if not (n in seen or seen.add(n))]
             macros = predefined_macros(c["std"])
             allf = S.cfile("all_forward.c", hs)
-            fails, used, T, exc = _sweep_work((sc, hs, allf, os.path.join(S.dir, "sweep.c"), c["std"], c["form"], names, sorted(macros)))
+            fails, used, T, exc = _sweep_work((sc, hs, allf, os.path.join(S.src, "sweep.c"), c["std"], c["form"], names, sorted(macros)))
             if c.get("other_std") and T is not None:
                 m2 = predefined_macros(c["other_std"])
-                f2, _, T2, exc2 = _sweep_work((sc, hs, allf, os.path.join(S.dir, "sweep2.c"), c["other_std"], c["form"], names, sorted(m2)))
+                f2, _, T2, exc2 = _sweep_work((sc, hs, allf, os.path.join(S.src, "sweep2.c"), c["other_std"], c["form"], names, sorted(m2)))
                 diff = sorted((set(T) ^ set(T2 or [])) - set(exc) - set(exc2))
                 if diff:
                     fails = fails + f2 + [("typedef-dialect-dependent", {}, f"-std={c['std']} vs -std={c['other_std']}: {diff}")]
@@ -602,7 +645,7 @@ def replay(rep):
             return 1 if fails else 0
         if "rewrite_chain" in c:
             chain = list(enumerate(c["rewrite_chain"], c.get("first_index", 0)))
-            steps, fails = _rewrite_work((sc, os.path.join(S.dir, "scratch.c"), chain, c["std"], c["form"]))
+            steps, fails = _rewrite_work((sc, os.path.join(S.src, "scratch.c"), chain, c["std"], c["form"]))
             for f in fails[:10]:
                 print("problem:", f[0], "|", f[2])
             if not fails:
